@@ -151,6 +151,28 @@ def big_graphs():
     yield "path65", 65, [(i, i + 1) for i in range(64)]
     yield "K400", 400, [(i, j) for i in range(400) for j in range(i + 1, 400)]  # 79800 similar pairs (more than 2^16)
     yield "star300+path", 310, [(0, i) for i in range(1, 300)] + [(300 + i, 301 + i) for i in range(9)]
+    # mid-size sparse graphs with arbitrary vertex numbering: 40 labelled trees on 32 and on 48 events (a fixed list, generated by a
+    # linear congruential sequence), each with two extra isolated events; deep merge orders that paths, stars and cliques never produce
+    for n in (32, 48):
+        for seed in range(40):
+            yield "tree%d_%d" % (n, seed), n + 2, _lcg_tree(n, seed)
+
+
+def _lcg_tree(n, seed):
+    state = [seed * 1000 + n]
+
+    def nxt():
+        state[0] = (state[0] * 6364136223846793005 + 1442695040888963407) % (2 ** 64)
+        return state[0] >> 33
+    perm = list(range(n))
+    for i in range(n - 1, 0, -1):
+        j = nxt() % (i + 1)
+        perm[i], perm[j] = perm[j], perm[i]
+    edges = []
+    for k in range(1, n):
+        a, b = perm[k], perm[nxt() % k]
+        edges.append((min(a, b), max(a, b)))
+    return sorted(edges)
 
 
 def run_big(case):
